@@ -1,4 +1,5 @@
 import SpdxVerif.Props.C09
+import SpdxVerif.Props.Consts
 #print axioms Spdx.C09.lookup_fold
 #print axioms Spdx.C09.lookup_canonical
 #print axioms Spdx.C09.licenseLookup_fold
@@ -6,3 +7,6 @@ import SpdxVerif.Props.C09
 #print axioms Spdx.C09.lists_fold_distinct
 #print axioms Spdx.C09.normalize_caseVariant
 #print axioms Spdx.C09.normalize_tokens_listed
+#print axioms Spdx.ConstsPin.readOperator_literals
+#print axioms Spdx.ConstsPin.readDocumentRef_literals
+#print axioms Spdx.ConstsPin.readLicenseRef_literals
